@@ -26,10 +26,13 @@ pub trait Prop: Sync {
     }
 }
 
+pub mod c01;
 pub mod c19;
+pub mod common;
 
 pub fn lookup(id: &str) -> Option<&'static dyn Prop> {
     match id {
+        "C01" => Some(&c01::C01),
         "C19" => Some(&c19::C19),
         _ => None,
     }
